@@ -654,3 +654,8 @@ mod test {
         })
     }
 }
+
+#[cfg(kani)]
+pub(crate) mod verif {
+    include!(concat!(env!("LIBP2P_VERIF"), "/hooks/peer_store_memory_store.rs"));
+}
